@@ -51,18 +51,37 @@ def pattern_for(rng, names, all_names):
     return a[:2] + ".*" + a[-1], form
 
 
-def matches_synthetic(pat):
+def matches_synthetic(pat, names=()):
     """bindgen also matches patterns against the synthetic names of unnamed types, which embed item numbers
-    (`S_21__bindgen_ty_id_90`, `_bindgen_ty_3`): recorded finding; such selections are left to its reproducer."""
+    (`S_21__bindgen_ty_id_90`, `_bindgen_ty_3`) or are built from the pointee's name (`S_x4_ptr_T_ab` for the type of a member
+    `T_ab *m` of S_x4): recorded finding; such selections are left to its reproducer."""
     try:
         rx = re.compile(pat)
     except re.error:
         return False
+    for parent, inner in names:
+        # (a pattern that selects the parent itself needs the pointee anyway)
+        if parent and rx.fullmatch(parent):
+            continue
+        for pre in ("ptr", "ptr_ptr"):
+            if rx.fullmatch("%s_%s_%s" % (parent, pre, inner)) or rx.fullmatch("%s_%s" % (pre, inner)):
+                return True
     for n in range(0, 400):
         for nm in ("S_1__bindgen_ty_id_%d" % n, "_bindgen_ty_%d" % n, "S_1x__bindgen_ty_id_%d" % n, "f_a__bindgen_ty_id_%d" % n, "T_2__bindgen_ty_id_%d" % n):
             if rx.fullmatch(nm):
                 return True
     return False
+
+
+def pointer_uses(items):
+    """(item, pointee) for every `X *` in an item's declaration where X is a named type of the graph"""
+    tn = set(it.name for it in items if it.kind == "type")
+    out = set()
+    for it in items:
+        for m in re.finditer(r"(\w+) ?\*", it.text):
+            if m.group(1) in tn:
+                out.add((it.name, m.group(1)))
+    return sorted(out)
 
 
 def synthetic_repro(chk):
@@ -77,6 +96,20 @@ def synthetic_repro(chk):
             return Verdict(VIOLATED, "repro-synthetic-name", "pattern `S_21__bindgen_ty_id_%d` (no C item has that name) allowlists S_1x and S_10" % n,
                            signature="c09.pattern-matches-synthetic-name")
     return Verdict(HELD, "repro-synthetic-name")
+
+
+def synthetic_ptr_repro(chk):
+    """the other kind of synthetic name: the unnamed pointer type of member `T_ab *m1` of S_x4 is called `S_x4_ptr_T_ab`"""
+    d = chk.dir("repro2")
+    hdr = write(os.path.join(d, "r2.h"), "enum E_30 { E_30_v0 };\ntypedef enum E_30 *T_ab;\nstruct S_x4 { T_ab *m1; };\nstruct S_b { int x; };\n")
+    o = os.path.join(d, "r2.rs")
+    rc, so, se, _ = sh([build.BINDGEN, hdr, "--no-layout-tests", "--allowlist-type", "S_.*b", "-o", o], timeout=60)
+    if rc != 0:
+        return Verdict(INCONCLUSIVE, "repro-synthetic-pointer-name", se[-200:])
+    if "pub type T_ab" in open(o).read():
+        return Verdict(VIOLATED, "repro-synthetic-pointer-name", "pattern `S_.*b` allowlists T_ab and E_30, which S_b does not need (it matches the name "
+                       "`S_x4_ptr_T_ab` bindgen gives to the type of S_x4's member)", signature="c09.pattern-matches-synthetic-name")
+    return Verdict(HELD, "repro-synthetic-pointer-name")
 
 
 def case(chk, i):
@@ -188,7 +221,7 @@ def case(chk, i):
             else:
                 out.append(Verdict(HELD, cname, obs={"bare_pattern_selections": 1}, nontrivial=True, key=cname))
             continue
-        if any(kd in ("type", "item") and matches_synthetic(pat) for kd, pat, _ in pats):
+        if any(kd in ("type", "item") and matches_synthetic(pat, pointer_uses(items)) for kd, pat, _ in pats):
             out.append(Verdict(HELD, "%s-s%d" % (name, s), obs={"selections_skipped_synthetic_name_pattern": 1}))
             continue
         o = os.path.join(d, "sel%d_%d.rs" % (i, s))
@@ -353,6 +386,7 @@ def enum_repr_case(chk, i):
 
 def run(chk):
     chk.add(synthetic_repro(chk))
+    chk.add(synthetic_ptr_repro(chk))
     n_er = len(ENUM_STYLES) * len(ENUM_OVERRIDES) * 4
     chk.map(lambda i: enum_repr_case(chk, i), range(n_er) if chk.tier != "quick" else sorted(chk.rng("er").sample(range(n_er), 64)), budget_s=chk.pick(200, 900))
     chk.map(lambda i: case(chk, i), range(chk.pick(60, 500)), budget_s=chk.pick(400, 2400))
